@@ -80,8 +80,9 @@ for k in known:
 sec+='''
 ### 5.3 Seeded property-breaking changes (`/verif/seeded/<id>-m<n>/`)
 
-Two per property, written by sub-agents that were given only the property text
-and a scratch worktree; each was confirmed by hand (builds, the repository's
+Two per property (m1, m2) plus a third round (m3) for C03 C06 C07 C10 C11 C14
+C16 C18 against the final tree, written by sub-agents that were given only the property text
+and a scratch worktree; each was confirmed (m1/m2 by hand, m3 by its author) (builds, the repository's
 tests still pass, its own demonstration fails with the change and passes
 without) before being kept with `patch.diff`, the demonstration, `run.sh` and
 `meta.json`. `tools/mut.sh <patch> <check>` applies a patch to `/repo`, runs the
@@ -122,6 +123,6 @@ for l in fixes:
 sec+="\n"
 s=s[:a]+sec+s[b:]
 s=re.sub(r"printing `KNOWN-FINDING` lines for the \d+ recorded defects that\nwere not repaired\. \d+ genuine defects were repaired", "printing `KNOWN-FINDING` lines for the %d recorded defects that\nwere not repaired. %d genuine defects were repaired" % (nf, len(fixes)), s)
-s=re.sub(r"\d+ of\nthe 40 seeded property-breaking changes", "%d of\nthe 40 seeded property-breaking changes" % ncaught, s)
+s=re.sub(r"\d+ of\nthe \d+ seeded property-breaking changes", "%d of\nthe %d seeded property-breaking changes" % (ncaught, len(seeded)), s)
 open('/verif/DESIGN.md','w').write(s)
 print('findings', nf, 'fixes', len(fixes), 'caught', ncaught)
